@@ -30,6 +30,7 @@ type Finding struct {
 	Tape    []TapeEntry
 	Path    []int
 	Harness string
+	OverApprox bool
 }
 
 type TapeEntry struct {
@@ -469,6 +470,7 @@ func (x *Exec) Assert(cond *smt.Term, label string) {
 	f := &Finding{Kind: "assert", Label: label, Model: m, Tape: x.tape(m), Harness: x.harness, Path: append([]int{}, x.sc.trace...)}
 	if x.overApprox {
 		f.Msg = "over-approximated path"
+		f.OverApprox = true
 	}
 	x.findings = append(x.findings, f)
 	// continue under the assumption that it held, if that is possible
@@ -537,7 +539,7 @@ func (x *Exec) RunPath(fn *ssa.Function, prefix []int) (res *PathResult, forks [
 		case *targetPanic:
 			// uncaught panic in code under test
 			msg := x.panicString(r)
-			f := &Finding{Kind: "panic", Label: "panic", Msg: msg, Harness: x.harness, Path: append([]int{}, x.sc.trace...)}
+			f := &Finding{Kind: "panic", Label: "panic", Msg: msg, Harness: x.harness, Path: append([]int{}, x.sc.trace...), OverApprox: x.overApprox}
 			if q := x.safeQuery(); q == smt.Sat {
 				f.Model = x.fullModel()
 				f.Tape = x.tape(f.Model)
